@@ -20,6 +20,11 @@ type FrameSrc struct {
 	Img      ImgSpec `json:"img"`
 	Opt      OptSpec `json:"opt"`
 	WithAlph bool    `json:"with_alph"` // lossy+alpha: prefix the frame data with its ALPH chunk
+	// OddAlph: alpha data the container has no place for: "lossless" = an ALPH chunk in
+	// front of a VP8L bitstream, "empty" = an ALPH chunk without payload in front of a VP8
+	// bitstream. Whether AddFrame/Assemble take it is the muxer's decision; what comes out
+	// must be a valid file.
+	OddAlph string `json:"odd_alph,omitempty"`
 }
 
 type MuxCall struct {
@@ -107,6 +112,13 @@ func GenMuxSpec(r *RNG, maxFrames int) MuxSpec {
 		case "paletted", "nrgba64", "sub", "gray", "ycbcr", "nrgba64sub", "palsub", "rgbasub", "graysub":
 			s.Img.Type = "nrgba"
 		}
+		if r.Pct(3) {
+			if s.Opt.Lossless {
+				s.OddAlph = "lossless"
+			} else {
+				s.OddAlph, s.WithAlph = "empty", false
+			}
+		}
 		m.Srcs = append(m.Srcs, s)
 	}
 	nf := r.Range(1, maxFrames)
@@ -123,6 +135,11 @@ func GenMuxSpec(r *RNG, maxFrames int) MuxSpec {
 				c.A = r.Pick(0, 0, 1, 40, 1000, 1<<24-1, 1<<24, -5)
 				if r.Pct(50) {
 					c.B, c.C = r.Intn(12), r.Intn(12)
+				}
+				if r.Pct(6) {
+					// offsets the container cannot store (24 bits of offset/2) or that make no sense
+					c.B = r.Pick(-2, -1, -3, 1<<24-2, 1<<24, 1<<25-2, 1<<25, 1<<31-1, c.B)
+					c.C = r.Pick(-2, -1, 1<<24, 1<<25, c.C, c.C, c.C)
 				}
 				c.D, c.E = r.Intn(2), r.Intn(2)
 			}
@@ -226,7 +243,7 @@ var blobMemo = map[string]*frameBlob{}
 
 // blobFor must be called outside any world.
 func blobFor(s FrameSrc) *frameBlob {
-	k := fileKey(s.Img, s.Opt) + fmt.Sprint(s.WithAlph)
+	k := fileKey(s.Img, s.Opt) + fmt.Sprint(s.WithAlph) + s.OddAlph
 	if b, ok := blobMemo[k]; ok {
 		return b
 	}
@@ -249,6 +266,20 @@ func blobFor(s FrameSrc) *frameBlob {
 				fb.blob = append(fb.blob, fr.Bitstream...)
 			} else {
 				fb.blob = fr.Bitstream
+			}
+			if s.OddAlph != "" {
+				var a []byte
+				if s.OddAlph == "lossless" {
+					a = make([]byte, 1+fr.BsW*fr.BsH) // uncompressed, unfiltered, fully transparent
+				} else {
+					a = []byte{}
+				}
+				fb.alpha = a
+				var hdr [8]byte
+				copy(hdr[:4], "ALPH")
+				binary.LittleEndian.PutUint32(hdr[4:], uint32(len(a)))
+				fb.blob = append(append(append([]byte{}, hdr[:]...), a...), make([]byte, len(a)&1)...)
+				fb.blob = append(fb.blob, fr.Bitstream...)
 			}
 		}
 	}
